@@ -519,9 +519,27 @@ FAULT_CLAUSES = {
 FAULT_MODES = {"C13": ["panic"], "C14": ["cancel", "block", "cancelcall", "gate"], "C15": ["err"], "C17": ["err", "panic", "cancel", "block"]}
 
 
+def mc_exec(run):
+    """Exec.tla: goroutines / channels / context of the exchange topology; with the repaired Exec (Recheck) every
+    property must hold, and the pinned behaviour (no re-check) must violate NoPartialSuccess (non-vacuity)."""
+    quick = run.tier == "quick"
+    base = "SPECIFICATION Spec\nCONSTANTS\n S = %d\n K = %d\n Cap = 2\n Recheck = %s\n Faults = TRUE\nINVARIANTS TypeOK NoPartialSuccess SuccessIsComplete ErrorSurfaces\nPROPERTIES ExecReturns GoroutinesExit\n"
+    ok, out, st = vlib.model_check(run, "Exec", base % (2, 2 if quick else 3, "TRUE"), "exec", timeout=1500)
+    if not ok:
+        # a model-level counterexample is not a verdict: it has to be reproduced on the real code (gate mode)
+        run.notes.append("Exec.tla reports a counterexample on the model of the current code: " + vlib.tlc_errors(out)[:400])
+        log("NOTE: Exec.tla violated at the model level (not a verdict by itself)")
+    ok2, out2, st2 = vlib.model_check(run, "Exec", base % (2, 2, "FALSE"), "exec_nocheck", timeout=600)
+    if ok2:
+        raise Infra("non-vacuity: Exec.tla without the context re-check should violate NoPartialSuccess")
+    log("Exec.tla: %d distinct states (current code: %s); without the re-check NoPartialSuccess is violated as expected" % (st["distinct"], "all properties hold" if ok else "VIOLATED"))
+
+
 def fault_check(run, rule_extra, assumptions):
     binary = vlib.build()
     quick = run.tier == "quick"
+    if run.prop in ("C13", "C14", "C15"):
+        mc_exec(run)
     scs = vlib.generate(run, "Gen_Fault", gen_cfg(run.tier, run.seed, 1, ["EmitFault"]), "fault", fam=run.prop, timeout=600)
     modes = FAULT_MODES[run.prop]
     for s in scs:
@@ -548,7 +566,13 @@ def fault_check(run, rule_extra, assumptions):
     if st.get("runs", 0) == 0 or st.get("fired", 0) == 0:
         raise Infra("vacuous run: no fault fired: %s" % st)
     return vlib.finish(run, "fault_enumeration",
-                       rule=("Gen_Fault.tla emits 16 plan shapes covering every operator kind (incl. merged selects, step-invariant, unary, "
+                       rule=(("Exec.tla (Exec loop, coalesce fan-out, concurrency operators with pull and drain goroutines and bounded buffers, "
+                              "context, one failing storage read) is model-checked by TLC for every interleaving and every cancellation point: no "
+                              "deadlock, Exec returns, never a successful partial result, a storage failure surfaces, all goroutines exit; "
+                              "the same model without the context re-check after Exec's loop violates NoPartialSuccess (non-vacuity; this "
+                              "counterexample was reproduced on the real code with a gate on the scheduling point concurrent.next.recv). "
+                              if run.prop in ("C13", "C14", "C15") else "") +
+                             "Gen_Fault.tla emits 16 plan shapes covering every operator kind (incl. merged selects, step-invariant, unary, "
                              "distributed over two remote engines) x instant / 12-step windows x core counts. For each the replayer runs the "
                              "query fault-free (twice) and then once per fault and per storage callback index k reached by the fault-free run "
                              "(all k up to the tier's cap, else first/last and a seeded sample): " + rule_extra + " The instrumented storage "
